@@ -87,6 +87,9 @@ struct Out {
     calls: usize,
     /// capacity bookkeeping observed (C08 / C16 monitors)
     notes: Vec<String>,
+    /// split_off: the buffer windows of the two vectors right after the operation (SplitCap.v):
+    /// kept offset,len,cap, split-off offset,len,cap (in elements, from the old buffer start), old capacity
+    win: Option<String>,
 }
 
 
@@ -161,6 +164,7 @@ fn run_op(kind: &str, input: &[u32], op: &Op, ans: &[u8], up: bool) -> Out {
     let mut yl: Vec<u32> = vec![];
     let mut fin: Vec<u32> = vec![];
     let mut notes = vec![];
+    let mut win: Option<String> = None;
     let mut bump: Bump = Bump::new();
     let uw;
     macro_rules! finish_vec {
@@ -194,6 +198,9 @@ fn run_op(kind: &str, input: &[u32], op: &Op, ans: &[u8], up: bool) -> Out {
             if let Some(mut o) = other {
                 yl.extend(ids_of(o.as_slice()));
                 if matches!(op, Op::SplitOff(..)) && !uw {
+                    let off = |p: usize, cap: usize| if cap == 0 { 0 } else { (p.wrapping_sub(addr)) / core::mem::size_of::<E>() };
+                    win = Some(format!("{},{},{},{},{},{},{}", off(v.as_ptr() as usize, v.capacity()), v.len(), v.capacity(),
+                                       off(o.as_ptr() as usize, o.capacity()), o.len(), o.capacity(), promised));
                     let total = v.capacity() + o.capacity();
                     if total != promised { notes.push(format!("split_off capacities {}+{} != {}", v.capacity(), o.capacity(), promised)); }
                     if v.capacity() < v.len() || o.capacity() < o.len() { notes.push("split_off part with capacity < len".into()); }
@@ -259,6 +266,9 @@ fn run_op(kind: &str, input: &[u32], op: &Op, ans: &[u8], up: bool) -> Out {
             if let Some(o) = other {
                 yl.extend(ids_of(o.as_slice()));
                 if !uw {
+                    let off = |p: usize, cap: usize| if cap == 0 { 0 } else { (p.wrapping_sub(addr)) / core::mem::size_of::<E>() };
+                    win = Some(format!("{},{},{},{},{},{},{}", off(v.as_ptr() as usize, v.capacity()), v.len(), v.capacity(),
+                                       off(o.as_ptr() as usize, o.capacity()), o.len(), o.capacity(), cap0));
                     if v.capacity() + o.capacity() != cap0 { notes.push(format!("split_off capacities {}+{} != {}", v.capacity(), o.capacity(), cap0)); }
                     if v.capacity() < v.len() || o.capacity() < o.len() { notes.push("split_off part with capacity < len".into()); }
                 }
@@ -303,7 +313,7 @@ fn run_op(kind: &str, input: &[u32], op: &Op, ans: &[u8], up: bool) -> Out {
             core::mem::forget(v);
         }
     }
-    Out { fin, yl, uw, calls: orc.calls, notes }
+    Out { fin, yl, uw, calls: orc.calls, notes, win }
 }
 
 /// the same operation on std::vec::Vec (identities only); None = std panics
@@ -749,7 +759,8 @@ fn run_case(w: &mut impl std::io::Write, kind: &str, input: &[u32], op: &Op, ans
             }
         }
         let ans_s: String = ans.iter().map(|c| *c as char).collect();
-        writeln!(w, "C {kind} {};in={};ans={};dp={};fin={};yl={};dr={};uw={};calls={}", op_str(&op), list(&input), ans_s, list(&dp),
+        let win_s = match &o.win { Some(x) => format!(";win={x}"), None => String::new() };
+        writeln!(w, "C {kind} {};in={};ans={};dp={};fin={};yl={};dr={};uw={};calls={}{win_s}", op_str(&op), list(&input), ans_s, list(&dp),
                  list(&o.fin), list(&o.yl), list(&dr), o.uw as u8, o.calls).unwrap();
         for m in x { writeln!(w, "X colls {kind} {} :: {m}", op_str(&op)).unwrap(); }
 }
@@ -886,6 +897,12 @@ fn main() {
         }
         if case % 10 == 7 {
             for m in misc_probe(&mut r) { writeln!(w, "X colls misc probe :: {m}").unwrap(); }
+        }
+        if case % 20 == 13 {
+            for m in traits_probe(&mut r) { writeln!(w, "X colls traits probe :: {m}").unwrap(); }
+        }
+        if case % 20 == 3 {
+            for m in flatten_probe(&mut r) { writeln!(w, "X colls flatten probe :: {m}").unwrap(); }
         }
         if case % 10 == 1 || case % 10 == 6 {
             let (notes, cline) = producers_probe(&mut r);
